@@ -80,8 +80,7 @@ def make_monitor(ctx):
             want_f, want_e = [], []
             for key, runs_evs in [(None, parent)] + list(children.items()):
                 for win in truth.windows(runs_evs):
-                    calls = [o for o in ops[win.tid] if isinstance(o, str)] if win.complete else \
-                        truth.executed_ops(ops[win.tid], win.phases)
+                    calls = truth.calls_of(win, ops)
                     want_f += [win.tid] * sum(1 for x in calls if x in truth.BAD_FAIL)
                     want_e += [win.tid] * sum(1 for x in calls if x in truth.BAD_ERR)
             import re
@@ -108,6 +107,19 @@ def totals_vs_model(ctx, c):
                   c.replay_obj())
 
 
+def make_flaky(rng, w, o):
+    """a test that fails only the first time it runs in a process, under --repeat"""
+    bad = [t for t in w["tests"] if any(p.get("exc") in ("fail", "error") for p in cw.parts_of(t))
+           and not t["expectFail"]]
+    if not bad:
+        return
+    t = rng.choice(bad)
+    for p in cw.parts_of(t):
+        if p.get("exc") in ("fail", "error"):
+            p["once"] = True
+    o["repeat"] = rng.choice([2, 3])
+
+
 def gen_cases(ctx):
     rng = ctx.rng
     n = 80 if ctx.quick() else 2000
@@ -117,7 +129,9 @@ def gen_cases(ctx):
         if rng.random() < 0.3:
             for l in w["layers"]:
                 l["setUpRaises"] = []
-        o = worlds.gen_opts(rng, allow=("repeat", "j", "verbose"))
+        o = worlds.gen_opts(rng, allow=("repeat", "j", "verbose", "stop"))
+        if rng.random() < 0.2:
+            make_flaky(rng, w, o)
         cases.append(cw.Case(w, o))
     return cases
 
